@@ -5,6 +5,21 @@ NOTES = ("All checks are contract-based deductive verification with pyvc (DESIGN
          "contract, failed validation of an assumed external contract). Known findings: /verif/known_findings.json.")
 
 CLAIMS = {
+    "C10": {
+        "text": ("Proof over the numpy array algebra for any number of persons and groups and any membership map: sum and nb_persons "
+                 "(with and without role) have one element per group of the simulation and add / count exactly the members of each "
+                 "group (in the role) - shown pointwise on the per-person (group id, weight) of the reduction; any() is positivity of "
+                 "that sum (with the inductive lemma sum of 0/1 weights > 0 iff some member has weight 1); project gives every person "
+                 "the value of its group (zero outside the role); the members_position loop (invariant with a ghost per-group "
+                 "counter) gives each person the number of earlier members of its group, so positions enumerate each group 0,1,2..; "
+                 "chained projectors apply their transforms innermost first."),
+        "note": ("NOT covered in this version (listed under not_decided, no stand-in is counted as proof): reduce / min / max / all, "
+                 "value_nth_person, value_from_person and get_rank, and the shortcut resolution of projectors. numpy enters through "
+                 "assumed contracts validated against numpy on every run. One genuine defect (trailing empty groups dropped) was "
+                 "repaired by a fix: commit."),
+        "technique": "contract-based deductive verification (reduction nodes compared pointwise, loop invariant with ghost counter + SMT)",
+        "design_ref": "DESIGN.md section 4 C10, section 3.5",
+    },
     "C15": {
         "text": ("Proof over the numpy array algebra, for an enumeration with a symbolic number of members and inputs of any length: "
                  "encoding integers (lists and ndarrays) either raises or yields, element by element, the input index, which lies in "
